@@ -27,7 +27,7 @@ func init() {
 			"canonicalised with gofmt and deduplicated (state = canonical text); each distinct canonical file is pushed through Parse/Fprint, explicit Decorator+Restorer on a shared populated FileSet (also: one Restorer restoring two files before either is printed; a Restorer with Extras; the Decorate/DecorateFile/RestoreFile helpers and a named FileRestorer), " +
 			"ParseFile with 3 parser modes and (k<=1) ParseDir; plus one big file made of the declarations of all import-free templates (thorough: with every single comment insertion); in the quick tier files with two insertions go through the three principal entry points only (Parse+Fprint, shared FileSet, one Restorer for two files); non-trivial = canonical file with at least one insertion",
 		Assumptions: []string{"go/format of this toolchain defines 'gofmt canonical'", "comment texts range over the alphabet only", "templates are the committed corpus"},
-		Units:       func(tier string) []string { return append(gapUnits(gen.Templates(), c01Shards), "big-file") },
+		Units:       func(tier string) []string { return append(gapUnits(gen.Templates(), c01Shards), "big-file#0/4", "big-file#1/4", "big-file#2/4", "big-file#3/4") },
 		Run:         runC01,
 		Check: func(c core.Case) core.Outcome {
 			g := decodeGap(c)
@@ -55,7 +55,7 @@ func c01BigFile() string {
 }
 
 func runC01(ctx *core.Ctx, unit int) {
-	if unit == len(gen.Templates())*c01Shards {
+	if base := len(gen.Templates()) * c01Shards; unit >= base {
 		big := c01BigFile()
 		t := gen.Template{Name: "big-file", Src: big}
 		ctx.Max("big_file_bytes", float64(len(big)))
@@ -64,7 +64,7 @@ func runC01(ctx *core.Ctx, unit int) {
 		if ctx.Thorough() {
 			k = 1
 		}
-		forEachCanonical(ctx, t, gen.Sigma[:2], k, 0, 1, func(gc GapCase) {
+		forEachCanonical(ctx, t, gen.Sigma[:2], k, unit-base, 4, func(gc GapCase) {
 			ctx.Eval(gc, checkC01(gc.Src, len(gc.Ins) == 0, true))
 		})
 		return
